@@ -567,6 +567,64 @@ def _adapter_idiom(fn, matcher, err):
     return None
 
 
+def filter_foreach_idiom(fn, callee, when, sink_name):
+    """`iter.filter(|x| [!]callee(..)).for_each(|x| sink(..))` is `for x in iter { if [!]callee(..) { sink(..) } }`:
+    the sink runs for exactly the elements on which callee(..) is `when`.  Returns a GuardResult or None."""
+    F = CURRENT_FACTS
+    if F is None:
+        return None
+
+    def closure_of(x, i):
+        if len(x.args) <= i:
+            return None
+        l = op_local(x.args[i])
+        d = fn.single_def(fn.resolve_copy(l)) if l is not None else None
+        if d and d[0] == "stmt" and d[3][0] == "agg" and d[3][1] == "closure":
+            return F.fns.get(d[3][2])
+        return None
+    for fc in fn.calls():
+        if fc.name() != "filter":
+            continue
+        pred = closure_of(fc, 1)
+        if pred is None:
+            continue
+        # polarity of the predicate: it returns callee(..) or !callee(..)
+        tests = [c for c in pred.calls() if callee.strip(":") == c.name() or callee in c.path]
+        if len(tests) != 1:
+            continue
+        t = tests[0]
+        tl = place_local(t.dest)
+        neg = None
+        for _, _, st in pred.stmts():
+            if st[0] == "a" and place_local(st[1]) == 0:
+                rv = st[2]
+                if rv[0] == "un" and rv[1] == "Not" and pred.resolve_copy(op_local(rv[2])) in (tl, pred.resolve_copy(tl)):
+                    neg = True
+                elif rv[0] == "use" and op_local(rv[1]) is not None and pred.resolve_copy(op_local(rv[1])) in (tl, pred.resolve_copy(tl)):
+                    neg = False
+        if place_local(t.dest) == 0:
+            neg = False
+        if neg is None:
+            continue
+        runs_when = (not neg)           # the element is kept when the predicate is true
+        if runs_when != bool(when):
+            continue
+        # the filtered iterator is consumed by for_each whose closure calls the sink
+        fl = fn.flows_to(place_local(fc.dest))
+        for ec in fn.calls():
+            if ec.name() == "for_each" and ec.args and op_local(ec.args[0]) in fl:
+                act = closure_of(ec, 1)
+                if act is not None and any(c.name() == sink_name for c in act.calls()):
+                    r = GuardResult()
+                    r.ok = True
+                    r.site = fc.bb
+                    r.line = fc.line
+                    r.msg = "`.filter(|..| %s%s(..)).for_each(|..| %s(..))`: %s runs exactly for the elements on which %s(..) is %s" % (
+                        "!" if neg else "", callee.strip(":"), sink_name, sink_name, callee.strip(":"), when)
+                    return r
+    return None
+
+
 def check_guard(fn, matcher, err=None, expect_rel=None, sinks=None, bypass="auto", protects=None, entry=0):
     """The guard obligation.
 
